@@ -3,5 +3,5 @@
 here="$(cd "$(dirname "$0")/.." && pwd)"; cd "$here"; mkdir -p scratch
 for d in "$1"/C*/; do
   [ -f "$d/patch.diff" ] || continue
-  VERIF_JOBS=${VERIF_JOBS:-6} tools/seedtest.sh "$d" >> scratch/seed_results.txt 2>&1
+  VERIF_JOBS=${VERIF_JOBS:-6} tools/seedtest.sh "$d" >> scratch/${SEED_RESULTS:-seed_results.txt} 2>&1
 done
